@@ -10,7 +10,10 @@ every argument before / after each call, repeated + interleaved calls, five equa
 diagram (float64 / int64 / int32 arrays, nested list, strided float64 view) also under non-default
 weight / kernel / range parameters that make intermediate values fractional, one estimator object swept
 over all forms, landscape tools on landscapes that already share the common grid, seeded mGH runs,
-plotting on the Agg backend.  ``predicate`` = all of that for one case."""
+plotting on the Agg backend; diagrams in narrow element types (float32 / float16 / uint8 / int16 arrays, Fortran order)
+whose values are exactly representable there; adjacency matrices in every scipy.sparse format WITH explicitly stored
+zeros (the container and its storage arrays snapshotted byte for byte) and as strided / Fortran-ordered dense arrays;
+whatever a call returned is overwritten before the call is repeated.  ``predicate`` = all of that for one case."""
 import json
 import math
 import os
@@ -26,7 +29,23 @@ RULE = ("static: one regenerated obligation per public entry point of the curren
         "forms (float64, int64, int32 arrays, nested lists of Python ints, a non-contiguous float64 view), "
         "non-integral diagrams as contiguous / strided float64 array / nested list, "
         "infinite deaths, empty / single point, skew on/off, kernels/weights, landscape "
-        "arithmetic, graphs as list/dense/CSR} + class integral_params for the imager, the weight functions and "
+        "arithmetic, graphs as list/dense/CSR} + classes narrow / narrow_int for every entry point that takes diagrams "
+        "(narrow: random values rounded to float32 with deaths > 2.5 x births and births of mixed magnitude, so that "
+        "single-precision differences round, as float64 / float32 / Fortran-ordered float64 array / nested list; "
+        "narrow_int: integers 0..12 as float64 / int64 / uint8 / int16 / float32 / float16 / Fortran-ordered array / "
+        "list; the narrow floating-point forms are compared with the float64 form at the normal tolerance for the entry "
+        "points that work in float64 whatever they are given (NARROW_TIGHT: bottleneck, wasserstein, imager fit, plots; "
+        "histories made of them), at 2e-5 (float32) / 5e-2 (float16) where the pinned code computes in the element "
+        "type of the diagram, and not at all where bars are snapped to grid nodes; narrow integer forms always at the "
+        "normal tolerance, sliced_wasserstein 2e-5) + class containers for gromov_hausdorff (adjacency matrices built "
+        "from triples in csr / csc / coo / lil / bsr / dok / dia storage with EXPLICITLY STORED ZEROS at some non-edges, "
+        "csr also with unsorted column indices, Fortran-ordered and strided dense arrays, element types int64 / float64 "
+        "/ bool / int8 / float32, pairwise and all-pairs calling form, one object in both argument positions; a sparse "
+        "argument is snapshotted as format + shape + number of stored entries + its current storage arrays byte for "
+        "byte, and the storage array objects of before the call as well) + after every call the ndarrays / lists it "
+        "returned are overwritten (NaN / 77 / an appended item) unless they are or share memory with an argument, so "
+        "that the repeated call and the later items of a call-order family fail when a result cache hands out its "
+        "stored object + class integral_params for the imager, the weight functions and "
         "the estimator sweep (integral diagrams under non-default secondary parameters that make the intermediate "
         "values fractional: a linear ramp spanning the persistences of the case with odd width, persistence ** n "
         "with n in {0.5, 1.5, 2.5}, a uniform kernel with non-integral half-width, general / isotropic Gaussian "
@@ -48,7 +67,8 @@ TRUSTED_BASE = [
     "harness/effects_translator.py: SSA renaming, inlining of persim-internal calls, ghost prelude for "
     "methods, and its tables of NumPy/SciPy/matplotlib/stdlib effect summaries (EXT_FUNCS, EXT_METHODS, ATTR_*)",
     "the heap semantics of Model/EffectIR.v as the meaning of the IR (a view is its base object)",
-    "dynamic half: the snapshot / comparison code of harness/props/c19.py",
+    "dynamic half: the snapshot / comparison code of harness/props/c19.py (sparse containers: _snap_sparse; result "
+    "overwriting: _scribble_result + harness/history.py scribble)",
     "the table's module-level NumPy summaries are audited on every real call of the dynamic half (np proxy: "
     "argument bytes before/after, shared memory of the result); method summaries (ndarray.astype, list.append, "
     "matplotlib Axes methods ...) are not audited",
@@ -70,8 +90,22 @@ ASSUMPTIONS = [
     "code under `if ... PERSIM_VERIF ...` is an add-only verification hook and is skipped",
     "the IR abstracts values: absence of writes is proved, equality of repeated results and "
     "representation independence are tested by the dynamic half only",
-    "'integer arrays' of the property text include int32 as well as int64 arrays, 'floating-point arrays' include "
-    "non-contiguous float64 views; float32 / unsigned / Fortran-ordered inputs are not generated",
+    "'integer arrays' of the property text include int32, int16 and uint8 as well as int64 arrays, 'floating-point "
+    "arrays' include non-contiguous and Fortran-ordered float64 arrays and float32 / float16 arrays whose values are "
+    "exactly representable in them",
+    "narrow floating-point diagrams: on the pinned tree only bottleneck, wasserstein, PersistenceImager.fit and the "
+    "plots work in float64 whatever they are given (NARROW_TIGHT) and are held to the normal tolerance; heat, "
+    "sliced_wasserstein, persistent_entropy, the imagers and the landscapes compute in the element type of a float32 "
+    "/ float16 diagram (results deviate by ~1e-7 relative for float32; grid landscapes can move a bar to the "
+    "neighbouring node) - a representation dependence under the strict reading of the property, REPORTED and not "
+    "suppressed by a looser predicate elsewhere: these entry points are compared at the resolution of the narrow "
+    "type only (NARROW_TOL / NARROW_GRID), so a change that makes one of THEM compute in single precision is not seen",
+    "heat on uint8 diagrams returns NaN on the pinned tree ((p - q) ** 2 wraps around in uint8): genuine defect, "
+    "proposed patch fixes/C19_heat_unsigned_input.patch; until it is applied the uint8 form is not generated for heat "
+    "(NARROW_OPEN)",
+    "graph containers are checked for purity and repeatability only; that a sparse and the equal-valued dense "
+    "adjacency matrix give the same bounds is not part of this property (C17)",
+    "returning an argument object itself (or a view of it) is allowed; such results are not overwritten",
 ]
 COQ_DEPS = ["Proofs/EffectP.vo"]
 HASHSEEDS = ["0"]
@@ -155,9 +189,45 @@ def extra_obligations(tier):
 # forms of one diagram: float64 array (C order), int64 array, nested list (Python ints where the value is
 # integral), int32 array, and "fview" = an equal-valued float64 array that is a NON-CONTIGUOUS view (every other
 # column of a wider array whose remaining columns hold junk)
-REPS = ("float", "int", "list", "int32", "fview")
-FI = ("float", "int", "int32", "fview")
+# NARROW forms (classes "narrow" / "narrow_int"; the values of such a case are exactly representable in the form):
+# "f32" / "f16" = float32 / float16 arrays, "uint8" / "int16" = narrow (unsigned) integer arrays, "forder" = a
+# Fortran-ordered float64 array
+NARROW = ("f32", "f16", "uint8", "int16", "forder")
+REPS = ("float", "int", "list", "int32", "fview") + NARROW
+FI = ("float", "int", "int32", "fview") + NARROW
 INT_FORMS = ("int", "int32")
+# a form that raises while its wider sibling is accepted is a representation dependence
+SIBLINGS = (("float", "fview"), ("int", "int32"), ("float", "forder"), ("float", "f32"), ("float", "f16"), ("int", "int16"), ("int", "uint8"))
+# Entry points that work in float64 whatever the element type of the diagrams handed in (they convert on entry):
+# there the narrow floating-point forms must agree with the float64 form at the module's normal tolerance.  The other
+# entry points of the pinned tree compute in the element type of a float32 / float16 diagram (and sliced_wasserstein
+# projects integer diagrams onto float32 directions): for them a narrow form is compared at the resolution of the
+# narrow type (NARROW_TOL), which still catches wrap-around, NaN, a rejected form or a wrong formula.
+NARROW_TIGHT = {"bottleneck", "wasserstein", "PersistenceImager.fit", "matching_plots", "plot_diagrams", "PersistenceImager.plot_diagram"}
+NARROW_TIGHT_OPS = {"bottleneck", "wasserstein", "plot"}             # ops of a "history" case
+NARROW_TOL = {"f32": 2e-5, "f16": 5e-2}
+# ... except where a result is a DISCONTINUOUS function of the input (bars snapped to grid nodes by floor / ceil): a
+# 1e-7 relative deviation of an intermediate quotient moves a bar to the neighbouring node, so the values of the
+# float32 / float16 forms are not compared there at all (mutation, repeatability and acceptance still are)
+NARROW_GRID = {"PersLandscapeApprox", "PersLandscapeApprox.arith", "PersistenceLandscaper", "landscapes.tools", "estimator_sweep"}
+NARROW_GRID_OPS = {"approx", "landscaper", "persimage"}
+# unsigned diagrams on which the pinned tree is known to fail (reported, fixes/C19_narrow_input_dtypes.patch): heat
+# computes (p - q) ** 2 in uint8, wraps around and returns NaN.  Remove the entry once the fix is in /repo.
+NARROW_OPEN = {"heat": ("uint8",)}
+
+
+def _form_tol(c, rep):
+    """Relative tolerance at which form `rep` of case c is compared with the first accepted form."""
+    base = c.get("rep_tol", 1e-12)
+    ep = c["ep"]
+    tight = ep in NARROW_TIGHT or (ep == "history" and set(c.get("ops", ["?"])) <= NARROW_TIGHT_OPS)
+    if rep in NARROW_TOL and not tight:
+        if ep in NARROW_GRID or (ep == "history" and set(c.get("ops", [])) & NARROW_GRID_OPS):
+            return None
+        return max(base, NARROW_TOL[rep])
+    if rep in ("uint8", "int16") and (ep == "sliced_wasserstein" or (ep == "history" and "sliced" in c.get("ops", []))):
+        return max(base, NARROW_TOL["f32"])
+    return base
 
 
 def _conv(dgm, rep, ncol=2):
@@ -169,7 +239,11 @@ def _conv(dgm, rep, ncol=2):
         return np.array(rows, dtype=np.int64).reshape(-1, ncol)
     if rep == "int32":
         return np.array(rows, dtype=np.int32).reshape(-1, ncol)
+    if rep in ("f32", "f16", "uint8", "int16"):
+        return np.array(rows, dtype={"f32": np.float32, "f16": np.float16, "uint8": np.uint8, "int16": np.int16}[rep]).reshape(-1, ncol)
     a = np.array(rows, dtype=np.float64).reshape(-1, ncol)
+    if rep == "forder":
+        return np.asfortranarray(a)
     if rep == "fview":
         base = np.full((a.shape[0], 2 * ncol), -77.25)
         v = base[:, ::2]
@@ -317,7 +391,7 @@ def _eps():
             if rep == "list":
                 return [r[0] for r in _conv([[v] for v in vals], "list", 1)]
             a = _conv([[v] for v in vals], rep, 1)
-            return a[:, 0] if rep == "fview" else a.ravel()
+            return a[:, 0] if rep in ("fview", "forder") else a.ravel()
         b, p = col(c["x"]), col(c["y"])
         if c["fn"] == "linear_ramp":
             wp = dict(c.get("wp") or {"low": 0.0, "high": 2.0, "start": 0.5, "end": 3.0})
@@ -484,20 +558,54 @@ def _eps():
     E["matching_plots"] = (matching_plot, ("float",))
 
     # ---- mGH
-    def graph(adj, form):
+    def graph(adj, form, zeros=(), dtype="int64", unsorted=False):
+        """One adjacency matrix in the container `form`.  Sparse forms are built from triples: the edges (value 1)
+        plus the positions `zeros` (non-edges) stored EXPLICITLY with value 0, as after A[i, j] = 0, A.multiply(mask)
+        or thresholding; `unsorted` stores the column indices of every csr row in descending order."""
         import scipy.sparse as sps
         if form == "list":
             return [list(r) for r in adj]
         if form == "csr":
             return sps.csr_matrix(np.array(adj))
-        return np.array(adj)
+        dt = {"int64": np.int64, "float64": np.float64, "bool": np.bool_, "int8": np.int8, "float32": np.float32}[dtype]
+        if form.startswith("sp_"):
+            fmt = form[3:]
+            n = len(adj)
+            trip = [(i, j, 1) for i in range(n) for j in range(n) if adj[i][j]]
+            have = {(i, j) for i, j, _ in trip}
+            trip += [(i, j, 0) for i, j in map(tuple, zeros) if (i, j) not in have and i < n and j < n]
+            trip = sorted(set(trip))
+            rows, cols, vals = [t[0] for t in trip], [t[1] for t in trip], [t[2] for t in trip]
+            A = sps.coo_matrix((np.array(vals, dtype=dt), (np.array(rows, dtype=np.int32), np.array(cols, dtype=np.int32))), shape=(n, n))
+            if fmt == "csr" and unsorted:
+                B = A.tocsr()
+                ind, dat = B.indices.copy(), B.data.copy()
+                for r in range(n):
+                    lo, hi = B.indptr[r], B.indptr[r + 1]
+                    ind[lo:hi] = ind[lo:hi][::-1]; dat[lo:hi] = dat[lo:hi][::-1]
+                return sps.csr_matrix((dat, ind, B.indptr.copy()), shape=(n, n))
+            return A if fmt == "coo" else A.asformat(fmt)
+        a = np.array(adj, dtype=dt)
+        if form == "dense_f":                       # Fortran-ordered dense array
+            return np.asfortranarray(a)
+        if form == "dense_view":                    # a non-contiguous window of a larger array
+            base = np.zeros((2 * len(adj), 2 * len(adj)), dtype=dt)
+            v = base[::2, ::2]
+            v[...] = a
+            return v
+        return a
 
     def mgh(c, rep):
-        gs = [graph(a, c.get("form", "dense")) for a in c["graphs"]]
+        forms = c.get("forms") or [c.get("form", "dense")]
+        zs = c.get("zeros") or []
+        gs = [graph(a, forms[k % len(forms)], zeros=(zs[k] if k < len(zs) else ()), dtype=c.get("dtype", "int64"),
+                    unsorted=c.get("unsorted", False)) for k, a in enumerate(c["graphs"])]
+        if c.get("same_object") and len(gs) >= 2 and c["graphs"][0] == c["graphs"][1]:
+            gs[1] = gs[0]                           # d(G, G): ONE object in both argument positions
         order = np.array(c.get("order", [0.5, 1.0]))
         def run():
             np.random.seed(c["np_seed"])
-            if len(gs) == 2:
+            if len(gs) == 2 and not c.get("all_pairs"):
                 return gh.gromov_hausdorff(gs[0], gs[1], mapping_sample_size_order=order)
             return gh.gromov_hausdorff(gs, mapping_sample_size_order=order)
         return [gs, order], run
@@ -605,14 +713,33 @@ def _collect(x, path, out, depth=0, seen=None):
         for k, e in list(vars(x).items()):
             _collect(e, "%s.%s" % (path, k), out, depth + 1, seen)
     elif type(x).__module__.startswith("scipy.sparse"):
-        seen.add(id(x))
-        for k in ("data", "indices", "indptr"):
-            if hasattr(x, k):
+        # the container itself (format, shape, number of stored entries, the CURRENT storage arrays byte for byte:
+        # a routine that rebinds x.data to a shorter array is seen) and the storage array objects of before the call
+        seen.add(id(x)); out.append((path, x))
+        for k in _SPARSE_FIELDS:
+            if isinstance(getattr(x, k, None), __import__("numpy").ndarray):
                 _collect(getattr(x, k), "%s.%s" % (path, k), out, depth + 1, seen)
+
+
+_SPARSE_FIELDS = ("data", "indices", "indptr", "row", "col", "rows", "offsets")
+
+
+def _snap_sparse(x):
+    import numpy as np
+    parts = []
+    for k in _SPARSE_FIELDS:
+        v = getattr(x, k, None)
+        if isinstance(v, np.ndarray):
+            parts.append((k, v.dtype.str, v.shape, repr([list(r) for r in v]) if v.dtype == object else v.tobytes()))
+    if x.format == "dok":
+        parts.append(("items", repr(sorted((tuple(map(int, k)), repr(v)) for k, v in x.items()))))
+    return ("sparse", x.format, tuple(x.shape), int(x.nnz), x.dtype.str, tuple(parts))
 
 
 def _snap1(o):
     import numpy as np
+    if type(o).__module__.startswith("scipy.sparse") and hasattr(o, "format"):
+        return _snap_sparse(o)
     if isinstance(o, np.ndarray):
         if o.dtype == object:
             return ("ndobj", o.shape, tuple(id(e) for e in o.ravel()))
@@ -678,6 +805,50 @@ def _same(a, b, tol):
     return True
 
 
+def _scribble_result(r, objs):
+    """The caller owns what a public function returned and may edit it: overwrite every ndarray / list reachable from
+    the result `r` (history.scribble) - unless it IS or shares memory with one of the argument objects `objs`
+    (returning an argument as it is, is allowed).  A later call whose result depends on that (a result cache that
+    hands out its stored object, a view of an estimator's internal state) then fails the repeat comparison."""
+    import numpy as np
+    from .. import history
+    found = []
+
+    def walk(x, depth=0):
+        if depth > 4:
+            return
+        if isinstance(x, np.ndarray):
+            found.append(x)
+            if x.dtype == object:
+                for e in x.ravel():
+                    walk(e, depth + 1)
+        elif isinstance(x, (list, tuple)):
+            found.append(x)
+            for e in x:
+                walk(e, depth + 1)
+        elif isinstance(x, dict):
+            found.append(x)
+            for e in x.values():
+                walk(e, depth + 1)
+    walk(r)
+    arg_ids = {id(o) for _, o in objs}
+    arg_arrays = [o for _, o in objs if isinstance(o, np.ndarray) and o.dtype != object]
+    for x in found:
+        if id(x) in arg_ids:
+            return False
+        if isinstance(x, np.ndarray) and x.dtype != object and any(np.shares_memory(x, a) for a in arg_arrays):
+            return False
+    history.scribble(r)
+    return bool(found)
+
+
+def _same_forms(c, r0, v0, r, v):
+    t0, t1 = _form_tol(c, r0), _form_tol(c, r)
+    if t0 is None or t1 is None:
+        return True
+    return _same(v0, v, max(t0, t1))
+
+
 def _disturb(k):
     """Calls to other public functions on unrelated data, between two calls under test."""
     import numpy as np
@@ -693,6 +864,10 @@ def _disturb(k):
 def _run_case(c, E):
     handler, forms = E[c["ep"]]
     reps = [r for r in c.get("reps", ["float"]) if r in forms]
+    skip = set(NARROW_OPEN.get(c["ep"], ()))
+    if c["ep"] == "history":
+        skip = {f for e, fs in NARROW_OPEN.items() if e in c.get("ops", []) for f in fs}
+    reps = [r for r in reps if r not in skip]
     out = {"mutated": [], "repeat_bad": [], "rep_bad": [], "errors": {}, "results": {}, "nonempty_args": False, "calls": 0}
     results = {}
     for rep in reps:
@@ -709,8 +884,10 @@ def _run_case(c, E):
             out["nonempty_args"] = True
         rs = []
         for k in range(2):
+            raw = None
             try:
-                rs.append(("ok", _canon(thunk())))
+                raw = thunk()
+                rs.append(("ok", _canon(raw)))
             except Exception as e:
                 rs.append(("err", type(e).__name__))
             out["calls"] += 1
@@ -718,6 +895,12 @@ def _run_case(c, E):
             for (pth, _), s0, s1 in zip(objs, before, after):
                 if s0 != s1 and ("%s:%s" % (rep, pth)) not in out["mutated"]:
                     out["mutated"].append("%s:%s" % (rep, pth))
+            if raw is not None and c["ep"] != "estimator_sweep":
+                try:
+                    out["scribbled"] = out.get("scribbled", 0) + bool(_scribble_result(raw, objs))
+                except Exception as e:
+                    out["errors"]["scribble"] = type(e).__name__
+                raw = None
             if k == 0:
                 try:
                     _disturb(c.get("seed", 0) % 3)
@@ -733,7 +916,7 @@ def _run_case(c, E):
             fr = [(f, r[1]) for f, r in zip(rs[0][1]["sweep_forms"], rs[0][1]["sweep"]) if r[0] == "ok"]
             out["sweep_forms_ok"] = [f for f, _ in fr]
             for f, v in fr[1:]:
-                if not _same(fr[0][1], v, c.get("rep_tol", 1e-12)):
+                if not _same_forms(c, fr[0][0], fr[0][1], f, v):
                     out["rep_bad"].append("%s-vs-%s(one estimator, forms in the order %s)" % (fr[0][0], f, "/".join(x for x, _ in fr)))
             if len(fr) < 2:
                 out["nonempty_args"] = False
@@ -742,10 +925,10 @@ def _run_case(c, E):
     if (c.get("integral") or c.get("repcmp")) and len(oks) >= 2:
         r0, v0 = oks[0]
         for r, v in oks[1:]:
-            if not _same(v0, v, c.get("rep_tol", 1e-12)):
+            if not _same_forms(c, r0, v0, r, v):
                 out["rep_bad"].append("%s-vs-%s" % (r0, r))
     # a function that takes the contiguous float64 (int64) array must take the equal-valued strided float64 (int32) one
-    for wide, narrow in (("float", "fview"), ("int", "int32")):
+    for wide, narrow in SIBLINGS:
         if results.get(wide, ("",))[0] == "ok" and results.get(narrow, ("",))[0] == "err":
             out["rep_bad"].append("%s-accepted-but-%s-raised-%s" % (wide, narrow, results[narrow][1]))
     out["forms_ok"] = [r for r, _ in oks]
@@ -910,6 +1093,7 @@ def order_child(jobs):
     {original index: canonical result}."""
     import warnings
     import numpy as np
+    from .. import history
     warnings.simplefilter("ignore")
     F = _order_funcs()
     out = []
@@ -926,7 +1110,10 @@ def order_child(jobs):
                     junk2 = [np.full((n, m), -3.25 - rnd) for n in range(1, 12) for m in range(1, 12)]
                     del junk, junk2
                 try:
-                    res[str(i)] = ["ok", _canon(F[it["fn"]](it["args"]))]
+                    raw = F[it["fn"]](it["args"])
+                    res[str(i)] = ["ok", _canon(raw)]
+                    history.scribble(raw)           # the caller edits what it got back (the arguments are private to this call)
+                    del raw
                 except Exception as e:
                     res[str(i)] = ["err", type(e).__name__]
             rounds.append(res)
@@ -1101,6 +1288,36 @@ def _graph(rng, n):
     return adj
 
 
+GRAPH_FORMS = ["sp_csr", "sp_csc", "sp_coo", "sp_lil", "sp_bsr", "sp_csr", "dense_f", "dense_view", "sp_dok", "sp_dia", "dense"]
+
+
+def _graph_containers(rng, c, variant=None):
+    """Containers of an adjacency matrix beyond list / int64 array / csr-from-dense: every scipy.sparse format built
+    from triples WITH explicitly stored zeros at some non-edges (csr also with unsorted column indices), Fortran-ordered
+    and strided dense arrays, element types int64 / float64 / bool / int8 / float32; sometimes one object in both
+    argument positions, sometimes the all-pairs calling form."""
+    v = rng.randrange(len(GRAPH_FORMS)) if variant is None else variant % len(GRAPH_FORMS)
+    first = GRAPH_FORMS[v]
+    c["forms"] = [first] + [rng.choice(GRAPH_FORMS + ["list", "csr"]) if rng.random() < 0.5 else first for _ in c["graphs"][1:]]
+    c["unsorted"] = (v == 5)
+    c["dtype"] = rng.choice(["int64", "float64", "bool", "int8", "float32"])
+    zs = []
+    for g in c["graphs"]:
+        n = len(g)
+        cand = [[i, j] for i in range(n) for j in range(n) if not g[i][j]]
+        rng.shuffle(cand)
+        zs.append(sorted(cand[:rng.randint(1, max(1, min(len(cand), n + 1)))]))
+    c["zeros"] = zs
+    if rng.random() < 0.3:
+        c["all_pairs"] = True
+    if rng.random() < 0.2:
+        c["graphs"][1] = [list(r) for r in c["graphs"][0]]
+        c["zeros"][1] = [list(z) for z in c["zeros"][0]]
+        c["forms"][1] = c["forms"][0]
+        c["same_object"] = True
+    return c
+
+
 def _crit(rng, k):
     fs = []
     for _ in range(k):
@@ -1169,10 +1386,18 @@ def _imager_params(rng, c, directed=False, variant=None):
 
 
 def _make(rng, ep, cls, variant=None):
-    integral = cls in ("integral", "integral_inf", "integral_params")
+    integral = cls in ("integral", "integral_inf", "integral_params", "narrow_int")
     reps = (["float", "list", "fview"] if cls == "integral_inf" else ["float", "int", "list", "int32", "fview"]) if integral else ["float"]
     repcmp = False
-    if not integral and rng.random() < 0.5:
+    if cls == "narrow_int":
+        # small non-negative integers: exactly representable in every narrow element type
+        reps = ["float", "int", "uint8", "int16", "f32", "f16", "forder", "list"]
+    elif cls == "narrow":
+        # random values ROUNDED TO float32 (see the end of this function): the float32 array, the float64 array
+        # (C and Fortran order) and the nested list hold the same numbers
+        reps = ["float", "f32", "forder", "list"]
+        repcmp = True
+    elif not integral and rng.random() < 0.5:
         # non-integral values: the equal-valued forms are the contiguous and the strided float64 array (+ nested list)
         reps = ["float", "fview"] + (["list"] if rng.random() < 0.5 else [])
         repcmp = True
@@ -1187,6 +1412,11 @@ def _make(rng, ep, cls, variant=None):
         c["repcmp"] = True
     scale = rng.choice([2.0 ** 20, 2.0 ** -20]) if cls == "scaled" else 1.0
     d1, d2 = _dgm(rng, n1, integral, scale=scale, dupes=(cls == "dupes")), _dgm(rng, n2, integral, scale=scale, dupes=(cls == "dupes"))
+    if cls == "narrow":
+        # deaths more than twice the births, births of mixed magnitude: persistences and cross differences are not
+        # exact in single precision, so arithmetic carried out in the narrow type shows in the result
+        d1, d2 = [[[b, b * rng.uniform(2.5, 9.0)] for b in (rng.uniform(0.01, 1.0) * rng.choice([1.0, 1.0, 4.0]) for _ in range(n))]
+                  for n in (n1, n2)]
     if cls == "scaled" and ep.startswith(("PersistenceImager", "PersImage", "PersLandscapeApprox", "PersistenceLandscaper", "landscapes", "images_")):
         d1, d2 = _dgm(rng, n1, integral), _dgm(rng, n2, integral)       # grids / pixel counts: keep the scale moderate
     if ep in ("bottleneck", "wasserstein"):
@@ -1267,7 +1497,7 @@ def _make(rng, ep, cls, variant=None):
             c["xy_range"] = [-1.0, 8.0, -1.0, 9.0]
         if not single and rng.random() < 0.25:
             c["plot_only"] = [1]
-        c["reps"] = ["float", "int", "int32", "fview"] if integral and not inf else ["float"]
+        c["reps"] = [r for r in reps if r != "list"] if cls in ("narrow", "narrow_int") else ["float", "int", "int32", "fview"] if integral and not inf else ["float"]
     elif ep == "matching_plots":
         c.update(d1=d1 or _dgm(rng, 1, integral), d2=d2, which=rng.choice(["bottleneck", "wasserstein"]), reps=["float"])
     elif ep == "history":
@@ -1276,8 +1506,12 @@ def _make(rng, ep, cls, variant=None):
         if not integral or "list" in reps:
             pass
         ops = [rng.choice(names) for _ in range(rng.randint(3, 6))]
+        if cls in ("narrow", "narrow_int") and rng.random() < 0.6:
+            ops = [rng.choice(sorted(NARROW_TIGHT_OPS)) for _ in range(rng.randint(3, 5))]     # all in float64: tight comparison
         c.update(d1=d1 or _dgm(rng, 2, integral), d2=d2, ops=ops)
-        if integral:
+        if cls in ("narrow", "narrow_int"):
+            c["reps"] = [r for r in reps if r != "list"]
+        elif integral:
             # list form: only the functions that accept nested lists
             c["reps"] = ["float", "int", "int32", "fview"]
         elif repcmp:
@@ -1286,7 +1520,7 @@ def _make(rng, ep, cls, variant=None):
         kind = rng.choice(["imager", "imager", "persimage", "landscaper"])
         if cls == "integral_params":
             kind = "imager"
-        order = list(reps) if integral else ["float", "fview", "list"]
+        order = list(reps) if integral or cls == "narrow" else ["float", "fview", "list"]
         rng.shuffle(order)
         c.pop("repcmp", None)
         c.update(kind=kind, order=order, reps=["float"], dgms=[d1 or _dgm(rng, 2, integral), d2], refit=rng.random() < 0.5,
@@ -1298,7 +1532,25 @@ def _make(rng, ep, cls, variant=None):
         k = 2 if rng.random() < 0.7 else 3
         c.update(graphs=[_graph(rng, rng.randint(2, 6)) for _ in range(k)], form=rng.choice(["dense", "list", "csr"]),
                  np_seed=rng.randrange(1000), reps=["float"], integral=False)
+        if variant is not None or rng.random() < 0.4:
+            _graph_containers(rng, c, variant)
+    if cls == "narrow":
+        for key in ("d1", "d2", "x", "y"):
+            if key in c:
+                c[key] = _round32(c[key])
+        if "dgms" in c:
+            c["dgms"] = [_round32(d) for d in c["dgms"]]
     return c
+
+
+def _round32(v):
+    """The nearest float32 value of every finite number in a nested list (as a Python float)."""
+    import struct
+    if isinstance(v, list):
+        return [_round32(x) for x in v]
+    if isinstance(v, float) and v == v and abs(v) != float("inf"):
+        return struct.unpack("f", struct.pack("f", v))[0]
+    return v
 
 
 
@@ -1409,6 +1661,11 @@ EP_NAMES = ["bottleneck", "wasserstein", "heat", "sliced_wasserstein", "persiste
 # cases of class "integral_params" (all five forms, directed non-default weight / kernel / range parameters)
 PARAM_EPS = ["PersistenceImager.fit_transform", "PersistenceImager.transform", "PersistenceImager.fit", "images_weights",
              "estimator_sweep"]
+NARROW_EPS = ["bottleneck", "wasserstein", "heat", "sliced_wasserstein", "persistent_entropy", "PersistenceImager.fit",
+              "PersistenceImager.transform", "PersistenceImager.fit_transform", "PersistenceImager.plot_diagram",
+              "PersImage.transform", "PersImage.to_landscape", "images_weights", "PersLandscapeExact", "PersLandscapeExact.arith",
+              "PersLandscapeApprox", "PersLandscapeApprox.arith", "PersistenceLandscaper", "landscapes.tools", "plot_diagrams",
+              "history", "estimator_sweep"]
 CLASSES = ["random", "integral", "integral", "inf", "integral_inf", "single", "empty", "dupes", "scaled"]
 SLOW = {"landscapes.plot", "matching_plots", "PersistenceImager.plot_diagram", "PersistenceImager.plot_image", "plot_diagrams"}
 
@@ -1455,6 +1712,21 @@ def generate(rng, tier):
     # combination of {lc_approx, average_approx, snap_pl} x {one shared explicit grid, first landscape covers}
     for v in range(6 if tier == "quick" else 36):
         cases.append(_make(rng, "landscapes.tools", ["random", "integral", "dupes"][v // 6 % 3], variant=v))
+    # narrow element types (float32 / float16 / uint8 / int16) and Fortran order: one case per entry point that takes
+    # diagrams, more for the entry points that must agree at full tolerance
+    k = 0
+    for ep in EP_NAMES:
+        if ep not in NARROW_EPS:
+            continue
+        n = (4 if ep in NARROW_TIGHT or ep == "history" else 1) * (1 if tier == "quick" else 12)
+        if ep in SLOW:
+            n = 1 if tier == "quick" else 4
+        for i in range(n):
+            cases.append(_make(rng, ep, ["narrow", "narrow_int", "narrow", "narrow"][i % 4] if n > 1 else ["narrow", "narrow_int"][k % 2]))
+            k += 1
+    # graph containers of the mGH front end: every sparse format with explicitly stored zeros, strided / Fortran dense
+    for v in range(len(GRAPH_FORMS) if tier == "quick" else 6 * len(GRAPH_FORMS)):
+        cases.append(_make(rng, "gromov_hausdorff", "containers", variant=v))
     for kind in ORDER_KINDS:
         for _ in range(1 if tier == "quick" else 4):
             cases.append(_order_case(rng, kind))
@@ -1476,7 +1748,8 @@ def search_generate(rng, n):
     per = max(6, min(40, n // max(1, len(eps))))
     for ep in eps:
         for i in range(per):
-            c = _make(rng, ep, rng.choice(["random", "random", "integral", "integral_params", "inf", "single"]))
+            c = _make(rng, ep, rng.choice(["random", "random", "integral", "integral_params", "inf", "single", "narrow", "narrow_int"]),
+                      variant=(i if ep == "gromov_hausdorff" and i % 2 else None))
             if "skew" in c:
                 c["skew"] = True
             if "lifetime" in c:
